@@ -778,7 +778,7 @@ def _minimise(h: Harness, history, clause: str, site: str):
 BOUNDS = {
     # tier: [(profile, regions, locals per region, depth, deviation bound)]
     "quick": [("graph", 1, 3, 5, 2), ("graph", 2, 2, 4, 2), ("full", 1, 3, 3, 2), ("full", 2, 2, 3, 2)],
-    "thorough": [("graph", 1, 3, 10, 3), ("graph", 2, 2, 6, 3), ("full", 1, 3, 4, 3), ("full", 1, 2, 5, 2),
+    "thorough": [("graph", 1, 3, 14, 3), ("graph", 2, 2, 6, 3), ("full", 1, 3, 4, 3), ("full", 1, 2, 5, 2),
                  ("full", 2, 2, 4, 2)],
 }
 
